@@ -224,6 +224,22 @@ func judge(s *core.Shard, pc *pcase, rep reporter) {
 				rep.violation(map[string]string{"kind": "partial-load", "attribute": pc.Position, "class": pc.Class},
 					fmt.Sprintf("%s: %q returned both an error (%s) and a project", pc.Position, d.Text, trim(r.Err.Error())), files(nil))
 			}
+			if pc.Mode == "reject" && strings.HasPrefix(pc.Position, "services.") {
+				// the same document reached through `extends.file` (such a layer is loaded with other
+				// internal options than a main file): it does not parse there either
+				c := pc.ldCase(i)
+				c.Files["base/base.yaml"] = d.YAML
+				c.Files["compose.yaml"] = "services:\n  s:\n    extends: {file: ./base/base.yaml, service: s}\n"
+				_, r2 := ld.Run(s.Scratch(), c)
+				s.Eval(1)
+				s.Add("near_miss_checked_through_extends", 1)
+				if r2.Panic != nil {
+					panicked(i, r2.Panic)
+				} else if r2.Err == nil {
+					rep.violation(map[string]string{"kind": "near-miss-accepted", "attribute": pc.Position, "class": pc.Class, "through": "extends.file"},
+						fmt.Sprintf("%s: %q is outside the grammar (%s) but a service extending the one that holds it from another file loaded without error", pc.Position, d.Text, pc.Why), files(nil))
+				}
+			}
 		}
 		return
 	}
